@@ -98,6 +98,14 @@ func OracleC17(res *Result) []Finding {
 	} else {
 		add("c17-serve-did-not-close", "closeSubscriptions never finished")
 	}
+	// a subscription ends by unsubscribe, by its own failure, or when the connection closes - not by
+	// the close another subscription asked for
+	for _, ct := range closeTasks(res.Events) {
+		if ct.Stale {
+			add("c17-ended-by-stale-close", "event %d: an asynchronous closeSubscription(%s) spawned by generation %d stopped generation %d, which had not asked for it",
+				ct.DoneIdx, ct.ID, ct.TaskGen, ct.ClosedGen)
+		}
+	}
 	// nothing runs, nothing is written after the end
 	for i, e := range res.Events {
 		var r *runInfo
